@@ -52,6 +52,18 @@ HISTORY = {
     "C18-4": "missed at first (momentum refresh after a divergence was not checked): momentum logged before/after every draw, first-step divergences generated",
     "C19-3": "same idea as C19-1 (second agent): caught as built",
     "C19-4": "same idea as C19-2 (second agent): caught as built after round 1",
+    "C01-5": "same idea as C01-4 (third agent): caught with a failing input by the mirror-rebuild oracle",
+    "C01-6": "C01 itself stays silent (its harness keeps the transformation fixed and the weights are taken from the logged energies); caught by C02 (logdet / reference-energy oracles), whose statement it breaks directly",
+    "C02-5": "missed at first (no low-rank update was ever rejected): full low-rank updates between draws, half of them with a non-finite eigenvalue that must be rejected as a whole",
+    "C03-6": "caught by C02 (kinetic-energy oracle); the same energy oracles were then added to the returned state in C03",
+    "C04-5": "C04 itself stays silent (partial claim); caught by C02 (forward/backward oracle)",
+    "C05-5": "caught by the tie in C05 and with a failing input by C07 (NaN acceptance statistic)",
+    "C07-5": "missed by C07 at first (its closed loop used dual averaging only; C09's binary64 statistic check caught it): steering audit for both controllers",
+    "C07-6": "missed at first (the search had theorems but no tie): search tie built (model/StepSize.v search2 evaluated on the trial acceptances of the real Strategy::init) + last-trial oracle",
+    "C08-5": "missed at first (the sum of logarithms behind every log-determinant was covered by no check): audit over dimensions up to 130 and scales at the clamp bounds",
+    "C10-6": "missed at first (the low-rank MCLMC preset was not among the protocol cases): preset added",
+    "C12-5": "caught by the protocol tie (the first command poll moved before initialisation is not an enabled transition of the model)",
+    "C17-6": "caught by the bit-exact kernel tie",
 }
 
 
